@@ -133,7 +133,14 @@ def run_part(part: Part, ctx: Ctx, stats: Stats, examples: int, known: typing.Di
             raise v
 
     def run_case(case: typing.Any) -> None:
+        t_case = time.time()
         ok, info = guard(case, lambda: part.check(case, ctx))
+        dt = time.time() - t_case
+        d = stats.parts.setdefault(part.name, {"evaluations": 0, "nontrivial": 0})
+        if dt > d.get("slowest_s", 0.0):
+            d["slowest_s"] = round(dt, 3)
+            if dt > 2.0:
+                d["slowest_case"] = json.dumps(case, default=str)[:1500]
         stats.record(part.name, case, info if ok else None)
 
     _guard_fn = guard
